@@ -8,6 +8,33 @@ from props import common
 PROP = 'C16'
 
 
+def evaluator_unsafe_problems(fx, ev):
+    """Unsafe code in the isogeny evaluator: only the coordinate write-back, i.e. every unsafe block wraps exactly one
+    as_tuple_mut() of the function's own &mut argument (however many exits write the result back), and the body has no
+    raw-pointer operation.  Returns (problems, number of unsafe blocks)."""
+    b = fx.body(ev)
+    ub = [u for u in fx.unsafe_blocks if u['owner'] == ev and u['source'] == 'UserProvided']
+    atm = [(bi_, t_) for bi_, t_ in b.calls() if (callee(t_) or {}).get('name') == 'as_tuple_mut' and (callee(t_) or {}).get('trait') == 'CurveProjective']
+    why_u = []
+    if not ub:
+        why_u.append('no unsafe block: the write-back does not go through as_tuple_mut')
+    if len(ub) != len(atm):
+        why_u.append('%d unsafe blocks for %d as_tuple_mut calls' % (len(ub), len(atm)))
+    for u in ub:
+        here = [t_ for _bi, t_ in b.calls() if t_['span'] == u['span'] and not t_.get('expn')]
+        names_ = sorted(set((callee(t_) or {}).get('name') or '?' for t_ in here))
+        if names_ != ['as_tuple_mut']:
+            why_u.append('the unsafe block at %s contains calls to %s' % (u['span'], names_))
+    for _bi, t_ in atm:
+        ref_ = b and __import__('mirutil').Resolver(b).operand_referent(t_['args'][0])
+        if not (ref_ and ref_[0] == 'place' and ref_[1]['l'] == 1):
+            why_u.append('as_tuple_mut at %s is not applied to the evaluator\'s own point argument' % t_['span'])
+    raw = [s_['span'] for blk_ in b.blocks for s_ in blk_['stmts'] if s_['k'] == 'assign' and s_['rv']['k'] == 'rawptr' and s_['rv'].get('kind') != 'FakeForPtrMetadata']
+    if raw:
+        why_u.append('raw pointers are created at %s' % raw[:2])
+    return why_u, len(ub)
+
+
 def rules(fx, rep):
     sswu = C.check_sswu_consts(fx, rep)
     iso = C.check_iso_tables(fx, rep, sswu)
@@ -28,29 +55,8 @@ def rules(fx, rep):
         # (scratch sizes / fill-loop bounds are decided by the evaluator rule below: an index out of range is a panicking path,
         #  a missing power of Z a wrong polynomial)
         # single unsafe block: as_tuple_mut on the function's own &mut argument
-        # unsafe code in the evaluator: only the coordinate write-back, i.e. every unsafe block wraps exactly one
-        # as_tuple_mut() of the function's own &mut argument (however many exits write the result back), and the body
-        # has no raw-pointer operation
-        ub = [u for u in fx.unsafe_blocks if u['owner'] == ev and u['source'] == 'UserProvided']
-        atm = [(bi_, t_) for bi_, t_ in b.calls() if (callee(t_) or {}).get('name') == 'as_tuple_mut' and (callee(t_) or {}).get('trait') == 'CurveProjective']
-        why_u = []
-        if not ub:
-            why_u.append('no unsafe block: the write-back does not go through as_tuple_mut')
-        if len(ub) != len(atm):
-            why_u.append('%d unsafe blocks for %d as_tuple_mut calls' % (len(ub), len(atm)))
-        for u in ub:
-            here = [t_ for _bi, t_ in b.calls() if t_['span'] == u['span'] and not t_.get('expn')]
-            names_ = sorted(set((callee(t_) or {}).get('name') or '?' for t_ in here))
-            if names_ != ['as_tuple_mut']:
-                why_u.append('the unsafe block at %s contains calls to %s' % (u['span'], names_))
-        for _bi, t_ in atm:
-            ref_ = b and __import__('mirutil').Resolver(b).operand_referent(t_['args'][0])
-            if not (ref_ and ref_[0] == 'place' and ref_[1]['l'] == 1):
-                why_u.append('as_tuple_mut at %s is not applied to the evaluator\'s own point argument' % t_['span'])
-        raw = [s_['span'] for blk_ in b.blocks for s_ in blk_['stmts'] if s_['k'] == 'assign' and s_['rv']['k'] == 'rawptr' and s_['rv'].get('kind') != 'FakeForPtrMetadata']
-        if raw:
-            why_u.append('raw pointers are created at %s' % raw[:2])
-        rep.check(not why_u, 'WIRE', 'evaluator-unsafe', 'every unsafe block is one coordinate write-back through as_tuple_mut on the evaluator\'s own argument (%d); no raw pointers' % len(ub), '; '.join(why_u[:3]))
+        why_u, n_ub = evaluator_unsafe_problems(fx, ev)
+        rep.check(not why_u, 'WIRE', 'evaluator-unsafe', 'every unsafe block is one coordinate write-back through as_tuple_mut on the evaluator\'s own argument (%d); no raw pointers' % n_ub, '; '.join(why_u[:3]))
 
 
 def main(tier, t0):
